@@ -302,6 +302,11 @@ Definition op_mod_i (this n : Z) : Z := to_i32 (op_mod_l this (to_i64 n)).
 (* gmp++_int.h: int16_t operator % (const uint16_t n) const { return (int16_t)(this->operator%((uint64_t)n)); } *)
 Definition op_mod_us (this n : Z) : Z := to_i16 (op_mod_ul this (to_u64 n)).
 
+(* gmp++_int.h: template<class XXX> XXX operator %(const XXX& n) const { return (XXX)this->operator % ( Integer(n) ); }
+   instantiated at XXX = short (Integer(short) goes through Integer(int32_t); the result, of magnitude
+   < 2^15, is converted back by operator int16_t) *)
+Definition op_mod_Ts (this n : Z) : Z := to_i16 (op_mod_I this n).
+
 (* double Integer::operator % (const double l) const, restricted to integer-valued l with |l| <= 2^53
    (the double is then the integer it carries; static_cast<uint64_t> and the int64_t -> double
    conversion of a result of magnitude < 2^53 are exact) *)
